@@ -35,7 +35,13 @@ RULE = ('cases = (constant value, position): values = all strings of length <= 3
         'with alias, WHERE c = v, IN list, INSERT VALUES (Constant node / raw python value with is_plain), UPDATE SET; '
         'every case is printed by to_string() and by get_string + get_exec_params of SqlalchemyRender for 7 dialect '
         "names; non-trivial = the value contains one of ' \" \\ ` % : ; -- /* # newline NUL, or is a float whose repr "
-        'has an exponent, or is negative; distinct by (value, position)')
+        'has an exponent, or is negative; distinct by (value, position). Statement shapes around the position (case '
+        'field ctx): right_join (WHERE / IN inside a SELECT with a RIGHT JOIN: no SqlalchemyRender compiles it), '
+        'limit_offset (WHERE / IN with LIMIT + OFFSET and no ORDER BY: mssql declines), two_rows (INSERT of two rows: '
+        'oracle / Snowflake decline) - there the default output is the fallback text, judged by the rules of the '
+        'requested target - and neg (numeric constant under a unary minus at every node position); shapes are run over '
+        'the fixed seeds + all hostile-alphabet strings of length <= 2 (quick) / 3 (thorough) and a quarter of the '
+        'random cases; distinct by (value, position, ctx)')
 ASSUMPTIONS = [
     'the lexical rules of MySQL, PostgreSQL, SQLite, MSSQL and Oracle are small hand-written models of the default '
     'modes (vf/oracles/targetlex.py); only the SQLite model is cross-checked against a real engine',
@@ -46,7 +52,11 @@ ASSUMPTIONS = [
     'labels of un-aliased constants: one identifier token is required, its content is open',
     'when SqlalchemyRender declines a statement (SQLAlchemyError / NotImplementedError) the default fallback output '
     '(with_failback=True) is what is judged, by the rules of the requested target',
-    'a negative number is the two tokens "-" number; a float literal denotes the nearest double',
+    'a negative number is the two tokens "-" number; a float literal denotes the nearest double; a number literal '
+    'inside parentheses, (-1), is still the one literal',
+    'ctx neg: the statement denotes minus the value at the position (checked by sqlite3), the literal itself must still '
+    'denote the value; the re-parse clause is not applied there (the parser folds "- 7" into one constant)',
+    'sqlite3 also executes the fallback text of the statement shapes (tables t1, t2; RIGHT JOIN needs SQLite >= 3.39)',
 ]
 def _floors(nontrivial, by_type, by_tag, out_own, out_sa, engine, placeholders, fallback, per_pos):
     f = {'__nontrivial__': nontrivial, 'out:to_string': out_own, 'engine:statement': engine,
@@ -58,22 +68,28 @@ def _floors(nontrivial, by_type, by_tag, out_own, out_sa, engine, placeholders, 
     return f
 
 
-# the 'fallback' floor is 0 since fix 12ca32a: the only statements the renderer declined for these positions were
-# oracle / Snowflake single-row INSERTs, which now render; the class is still counted when it occurs
+# 'fallback': since fix 12ca32a no plain position is declined by a renderer; the class is fed by the statement shapes
+# (ctx right_join: every name declines; limit_offset: mssql; two_rows: oracle, Snowflake)
 # <= 1/3 of what a run produces (bool / null are small finite sets: 2 values x 7 positions per shard + seeds)
 FLOORS = {
     'quick': _floors(6000, {'str': 7000, 'int': 300, 'float': 300, 'bool': 70, 'null': 90, 'date': 280, 'datetime': 280},
                      {'v:quote': 1800, 'v:backslash': 1800, 'v:percent': 1300, 'v:colon': 1300, 'v:semicolon': 1300,
                       'v:dashdash': 450, 'v:slashstar': 80, 'v:newline': 1200, 'v:nul': 500, 'v:non-ascii': 1500,
                       'float:exponent': 150, 'num:negative': 250},
-                     9000, 17000, 8500, 5000, 0, 1000),
+                     9000, 17000, 8500, 5000, 4000, 1000),
     'thorough': _floors(60000, {'str': 75000, 'int': 3000, 'float': 3000, 'bool': 70, 'null': 90, 'date': 3000,
                                 'datetime': 3000},
                         {'v:quote': 20000, 'v:backslash': 20000, 'v:percent': 16000, 'v:colon': 16000,
                          'v:semicolon': 15000, 'v:dashdash': 5000, 'v:slashstar': 900, 'v:newline': 15000, 'v:nul': 6000,
                          'v:non-ascii': 18000, 'float:exponent': 1700, 'num:negative': 3000},
-                        90000, 165000, 80000, 54000, 0, 11000),
+                        90000, 165000, 80000, 54000, 50000, 11000),
 }
+FLOORS['quick'].update({'ctx:right_join': 250, 'ctx:limit_offset': 250, 'ctx:two_rows': 250, 'ctx:neg': 250,
+                        'fallback:sqlite': 400, 'fallback:postgresql': 400, 'fallback:mysql': 400, 'fallback:mssql': 800,
+                        'fallback:oracle': 700})
+FLOORS['thorough'].update({'ctx:right_join': 3000, 'ctx:limit_offset': 3000, 'ctx:two_rows': 3000, 'ctx:neg': 3000,
+                           'fallback:sqlite': 5000, 'fallback:postgresql': 5000, 'fallback:mysql': 5000,
+                           'fallback:mssql': 10000, 'fallback:oracle': 9000})
 N = {'quick': 1200, 'thorough': 12000}
 EXH_LEN = {'quick': 3, 'thorough': 4}
 
@@ -213,9 +229,48 @@ def make_node(val, alias=None):
     return ast.Constant(py_value(val), **kw)
 
 
-def make_statement(val, pos):
+def make_statement(val, pos, ctx='plain'):
     from mindsdb_sql.parser import ast
     I, C = ast.Identifier, ast.Constant
+    if ctx == 'neg':
+        # the constant under a unary minus (alias, if any, on the operation)
+        def neg(alias=None):
+            kw = {'alias': I(alias)} if alias else {}
+            return ast.UnaryOperation('-', [make_node(val)], **kw)
+        if pos == 'sel':
+            return ast.Select(targets=[neg()])
+        if pos == 'sel_alias':
+            return ast.Select(targets=[neg('x1')])
+        if pos == 'where':
+            return ast.Select(targets=[I('c1')], from_table=I('t1'), where=ast.BinaryOperation('=', args=[I('c1'), neg()]))
+        if pos == 'in':
+            return ast.Select(targets=[I('c1')], from_table=I('t1'),
+                              where=ast.BinaryOperation('in', args=[I('c1'), ast.Tuple([C(5), neg(), C('w')])]))
+        if pos == 'insert':
+            return ast.Insert(table=I('t1'), columns=[I('c1'), I('c2')], values=[[C(5), neg()]])
+        if pos == 'update':
+            return ast.Update(table=I('t1'), update_columns={'c2': neg()},
+                              where=ast.BinaryOperation('=', args=[I('c1'), C(5)]))
+        raise ValueError((pos, ctx))
+    if ctx == 'right_join':
+        # a statement shape no SqlalchemyRender compiles (NotImplementedError: Join type): every name falls back
+        col = I('t1.c1')
+        cond = ast.BinaryOperation('=', args=[col, make_node(val)]) if pos == 'where' else \
+            ast.BinaryOperation('in', args=[col, ast.Tuple([C(5), make_node(val), C('w')])])
+        return ast.Select(targets=[I('t1.c1')],
+                          from_table=ast.Join(left=I('t1'), right=I('t2'), join_type='RIGHT JOIN',
+                                              condition=ast.BinaryOperation('=', args=[I('t1.c1'), I('t2.c1')])),
+                          where=cond)
+    if ctx == 'limit_offset':
+        # LIMIT + OFFSET without ORDER BY: the mssql compiler declines it (CompileError)
+        q = make_statement(val, pos)
+        q.limit, q.offset = C(5), C(3)
+        return q
+    if ctx == 'two_rows':
+        # multi-row VALUES: the oracle compiler (names oracle, Snowflake) declines it
+        q = make_statement(val, pos)
+        q.values = q.values + [[C(6), C('w')] if pos == 'insert' else [6, 'w']]
+        return q
     if pos == 'sel':
         return ast.Select(targets=[make_node(val)])
     if pos == 'sel_alias':
@@ -236,7 +291,17 @@ def make_statement(val, pos):
     raise ValueError(pos)
 
 
-def in_domain(val, pos):
+CTX_POS = {'plain': POSITIONS,
+           'right_join': ('where', 'in'), 'limit_offset': ('where', 'in'), 'two_rows': ('insert', 'insert_raw'),
+           'neg': ('sel', 'sel_alias', 'where', 'in', 'insert', 'update')}
+SHAPES = [(c, p) for c in ('right_join', 'limit_offset', 'two_rows', 'neg') for p in CTX_POS[c]]
+
+
+def in_domain(val, pos, ctx='plain'):
+    if pos not in CTX_POS[ctx]:
+        return f'context {ctx} has no position {pos}'
+    if ctx == 'neg' and val['t'] not in ('int', 'float'):
+        return 'unary minus is judged over numeric constants only'
     if val['t'] == 'float' and not math.isfinite(float(val['v'])):
         return 'non-finite float: no SQL literal denotes it'
     if pos == 'insert_raw' and val['t'] in ('date', 'datetime'):
@@ -278,20 +343,20 @@ def _render(out, stmt):
         return {'text': text, 'params': params, 'path': 'fallback', 'declined': declined}
 
 
-def render(out, val, pos):
+def render(out, val, pos, ctx='plain'):
     try:
-        return _render(out, make_statement(val, pos))
+        return _render(out, make_statement(val, pos, ctx))
     except RecursionError:
         raise
     except Exception as e:
         return {'exc': e}
 
 
-def sentinel_render(out, val, pos):
+def sentinel_render(out, val, pos, ctx='plain'):
     s = sentinel_for(val)
-    key = (out, pos, s['t'])
+    key = (out, pos, s['t'], ctx)
     if key not in _S0:
-        _S0[key] = render(out, s, pos)
+        _S0[key] = render(out, s, pos, ctx)
     return _S0[key]
 
 
@@ -348,6 +413,8 @@ def literal_verdict(X, val, target):
     if t in ('int', 'float'):
         neg = v < 0 or (t == 'float' and v == 0 and math.copysign(1, v) < 0)
         toks = list(X)
+        while len(toks) >= 3 and toks[0].kind != 'str' and toks[0].src == '(' and toks[-1].kind != 'str' and toks[-1].src == ')':
+            toks = toks[1:-1]                   # a parenthesised literal, (-1), is still one literal
         if toks and toks[0].kind == 'op' and toks[0].src == '-' and len(toks) == 2:
             sign, toks = -1, toks[1:]
         else:
@@ -461,6 +528,7 @@ def _db():
     if c is None:
         c = sqlite3.connect(':memory:')
         c.execute('CREATE TABLE t1 (c1, c2)')
+        c.execute('CREATE TABLE t2 (c1, c2)')
         _DB['c'] = c
     return c
 
@@ -483,10 +551,12 @@ def _eq_engine(got, want, t):
     return type(got) is type(want) and got == want
 
 
-def engine_check(text, X, val, pos):
+def engine_check(text, X, val, pos, ctx='plain'):
     """Ask sqlite3.  -> list of (kind, feature, detail)"""
     t = val['t']
-    want = engine_value(val)
+    lit_want = engine_value(val)
+    want = -lit_want if ctx == 'neg' else lit_want          # what the statement as a whole denotes at the position
+    copies = 4 if ctx == 'limit_offset' else 1              # OFFSET 3 skips three of the selected rows
     c = _db()
     probs = []
     blob = b'\x00\x01'
@@ -494,17 +564,20 @@ def engine_check(text, X, val, pos):
         if X:
             lit = ' '.join(k.src for k in X) if len(X) > 1 else X[0].src
             got = c.execute('SELECT ' + lit).fetchall()
-            if len(got) != 1 or len(got[0]) != 1 or not _eq_engine(got[0][0], want, t):
+            if len(got) != 1 or len(got[0]) != 1 or not _eq_engine(got[0][0], lit_want, t):
                 probs.append(('engine', 'engine:literal', f'sqlite3 evaluates the literal {_short(lit)} to {_short(repr(got))}'))
         exact = t != 'float' and not (t == 'int' and not -2 ** 63 <= want < 2 ** 63)
         c.execute('DELETE FROM t1')
+        c.execute('DELETE FROM t2')
         if pos in ('sel', 'sel_alias'):
             rows = c.execute(text).fetchall()
             if len(rows) != 1 or len(rows[0]) != 1 or not _eq_engine(rows[0][0], want, t):
                 probs.append(('engine', 'engine:statement', f'sqlite3 returns {_short(repr(rows))}'))
         elif pos in ('where', 'in'):
             if exact:
-                c.execute('INSERT INTO t1 VALUES (?, 1), (?, 2)', (want, blob))
+                c.executemany('INSERT INTO t1 VALUES (?, 1)', [(want,)] * copies)
+                c.execute('INSERT INTO t1 VALUES (?, 2)', (blob,))
+                c.execute('INSERT INTO t2 SELECT DISTINCT c1, c2 FROM t1')
                 rows = c.execute(text).fetchall()
                 exp = [] if want is None else [(want,)]
                 if len(rows) != len(exp) or any(len(r) != 1 or not _eq_engine(r[0], want, t) for r in rows):
@@ -513,8 +586,9 @@ def engine_check(text, X, val, pos):
                 c.execute(text).fetchall()
         elif pos in ('insert', 'insert_raw'):
             c.execute(text)
-            rows = c.execute('SELECT c1, c2 FROM t1').fetchall()
-            if len(rows) != 1 or rows[0][0] != 5 or not _eq_engine(rows[0][1], want, t):
+            rows = c.execute('SELECT c1, c2 FROM t1 ORDER BY c1').fetchall()
+            second_ok = rows[1:] == ([(6, 'w')] if ctx == 'two_rows' else [])
+            if not second_ok or rows[0][0] != 5 or not _eq_engine(rows[0][1], want, t):
                 probs.append(('engine', 'engine:statement', f'sqlite3 stored {_short(repr(rows))}'))
         elif pos == 'update':
             c.execute('INSERT INTO t1 VALUES (5, ?), (6, ?)', (blob, blob))
@@ -589,13 +663,18 @@ def outputs_for(pos):
     return outs
 
 
-def judge_output(out, val, pos, col, cache):
+def judge_output(out, val, pos, col, cache, ctx='plain'):
     """-> list of records for one output path."""
     target = targetlex.LIBRARY if out[0] == 'to_string' else out[0]
     ctarget = targetlex.canonical(target)
     method = 'to_string' if out[0] == 'to_string' else out[1]
     cfg = {'target': out[0], 'pos': pos}
     feats = record_features(val)
+    if ctx != 'plain':
+        cfg['ctx'] = ctx
+        feats = feats + ['ctx:' + ctx]
+    if ctx == 'neg':
+        feats.append('unary-minus-over-constant')
     recs = []
 
     def rec(kind, site, extra, detail, text=''):
@@ -604,12 +683,12 @@ def judge_output(out, val, pos, col, cache):
     if val['t'] == 'str' and not targetlex.representable(val['v'], ctarget):
         col.excluded(f'text with NUL: no literal of {ctarget} denotes it')
         return recs
-    r = render(out, val, pos)
+    r = render(out, val, pos, ctx)
     if 'exc' in r:
         e = r['exc']
         rec('raises', method, ['exc:' + site_of(e)], f'{type(e).__name__}: {_short(str(e), 160)}')
         return recs
-    r0 = sentinel_render(out, val, pos)
+    r0 = sentinel_render(out, val, pos, ctx)
     if 'exc' in r0:
         rec('raises', method, ['exc:' + site_of(r0['exc']), 'on-sentinel'], f'benign value: {type(r0["exc"]).__name__}')
         return recs
@@ -617,6 +696,9 @@ def judge_output(out, val, pos, col, cache):
     col.cls('out:' + out[0])
     if r['path'] == 'fallback':
         col.cls('fallback')
+        col.cls('fallback:' + out[0])
+        # the renderer declined the statement and handed out the tree's own (mindsdb dialect) text for the target
+        feats = feats + ['fallback:own-dialect-text', 'declined:' + r.get('declined', '?')]
     if r['path'] != r0['path']:
         rec('path', site, ['declined-by-value:' + r.get('declined', r0.get('declined', '?'))],
             f'the value makes the renderer take the {r["path"]} path, a benign value the {r0["path"]} path', r['text'])
@@ -637,8 +719,10 @@ def judge_output(out, val, pos, col, cache):
             rec('structure', site, ['placeholders-with-literal'], f'parameterised text holds a literal: {_short(text, 200)}', text)
         p = r['params']
         v = py_value(val)
-        ok = isinstance(p, list) and len(p) == 1 and isinstance(p[0], list) and len(p[0]) == 2 and p[0][0] == 5 \
-            and type(p[0][1]) is type(v) and (p[0][1] == v or (v != v and p[0][1] != p[0][1]))
+        ok = isinstance(p, list) and len(p) == (2 if ctx == 'two_rows' else 1) and isinstance(p[0], list) \
+            and len(p[0]) == 2 and p[0][0] == 5 \
+            and type(p[0][1]) is type(v) and (p[0][1] == v or (v != v and p[0][1] != p[0][1])) \
+            and (ctx != 'two_rows' or p[1] == [6, 'w'])
         if not ok:
             rec('params', site, [], f'parameter list {_short(repr(p), 200)} does not carry the value {_short(repr(v))}', text)
         return recs
@@ -657,15 +741,15 @@ def judge_output(out, val, pos, col, cache):
     diag = emit_diagnosis(text, text0, val, out) if probs else []
     for kind, feature, detail in probs:
         rec(kind, site, [feature] + diag, f'{detail}; output: {_short(text, 200)}', text)
-    if ctarget == 'sqlite' and r['path'] == 'sa':
+    if ctarget == 'sqlite' and (r['path'] == 'sa' or ctx != 'plain'):
         col.cls('engine:statement')
-        eprobs = engine_check(text, X if not probs else None, val, pos)
+        eprobs = engine_check(text, X if not probs else None, val, pos, ctx)
         for kind, feature, detail in eprobs:
             rec(kind, site, [feature] + (['model-agrees'] if probs else ['model-passes']), f'{detail}; output: {_short(text, 200)}', text)
         if probs and not eprobs and val['t'] == 'str' and not all(p[0] == 'label' for p in probs):
             # the hand-written sqlite reader sees a problem the engine does not: the reader is wrong (harness error)
             raise AssertionError(f'sqlite model disagrees with the engine on {text!r}: {probs}')
-    if out[0] == 'to_string':
+    if out[0] == 'to_string' and ctx != 'neg':       # the parser folds "- 7" into Constant(-7): no tree to compare with
         for kind, feature, detail in reparse_check(text, text0, val):
             rec(kind, site, [feature] + (['ref-agrees'] if probs else ['ref-passes']) + emit_diagnosis(text, text0, val, out),
                 f'{detail}; output: {_short(text, 200)}', text)
@@ -724,28 +808,28 @@ def twin_check(val, tw):
 
 
 def judge(case, col):
-    val, pos = case['val'], case['pos']
-    why = in_domain(val, pos)
+    val, pos, ctx = case['val'], case['pos'], case.get('ctx', 'plain')
+    why = in_domain(val, pos, ctx)
     if why:
         col.excluded(why)
         return []
     classes, hostile = value_classes(val)
-    classes = classes + ['pos:' + pos]
+    classes = classes + ['pos:' + pos, 'ctx:' + ctx]
     recs = []
     cache = {}
     for out in outputs_for(pos):
-        recs.extend(judge_output(out, val, pos, col, cache))
+        recs.extend(judge_output(out, val, pos, col, cache, ctx))
     # metamorphic clause: the spelling of a literal must not depend on the other constants of the statement
     # (a value-equal constant of another type earlier in the statement: 1 / 1.0 / TRUE)
-    if pos == 'where':
+    if pos == 'where' and ctx == 'plain':
         tw = twin_of(val)
         if tw is not None:
             classes.append('twin-judged')
             recs.extend(twin_check(val, tw))
     if hostile:
         classes.append('nontrivial')
-    key = (val['t'], val.get('v'), val.get('node'), pos)
-    col.case(key, hostile, classes, {'value': val, 'position': pos, 'to_string': cache.get(('text', 'to_string')),
+    key = (val['t'], val.get('v'), val.get('node'), pos) + ((ctx,) if ctx != 'plain' else ())
+    col.case(key, hostile, classes, {'value': val, 'position': pos, 'context': ctx, 'to_string': cache.get(('text', 'to_string')),
                                      'mysql': cache.get(('text', 'mysql')), 'oracle': cache.get(('text', 'oracle'))})
     return recs
 
@@ -754,6 +838,15 @@ def judge(case, col):
 
 def exhaustive_values(tier):
     for n in range(EXH_LEN[tier] + 1):
+        for combo in itertools.product(ALPHABET, repeat=n):
+            yield val_str(''.join(combo))
+
+
+SHAPE_EXH_LEN = {'quick': 2, 'thorough': 3}
+
+
+def shape_exhaustive_values(tier):
+    for n in range(1, SHAPE_EXH_LEN[tier] + 1):
         for combo in itertools.product(ALPHABET, repeat=n):
             yield val_str(''.join(combo))
 
@@ -781,10 +874,13 @@ _PAYLOADS = [' OR 1=1 -- ', '; DROP TABLE t1; --', ' /* ', ' */ ', ' # ', ' -- \
 _HOSTILE_CH = list('\'"\\`%:;-/*#\n\r\t\x00 ]$@?n0_Z') + ['é', '\u2028', '\U0001f600']
 
 
+_KINDS = ['text', 'text', 'hostile', 'hostile', 'hostile', 'inject', 'inject', 'int', 'float', 'bool', 'null', 'date',
+          'datetime']
+
+
 @st.composite
-def values(draw):
-    k = draw(st.sampled_from(['text', 'text', 'hostile', 'hostile', 'hostile', 'inject', 'inject', 'int', 'float',
-                              'bool', 'null', 'date', 'datetime']))
+def values(draw, kinds=None):
+    k = draw(st.sampled_from(kinds or _KINDS))
     if k == 'text':
         return val_str(draw(st.text(max_size=24)))
     if k == 'hostile':
@@ -817,6 +913,13 @@ def values(draw):
 
 @st.composite
 def cases(draw):
+    if draw(st.integers(0, 3)) == 0:
+        # a statement shape around the position: one the renderers decline (fallback text) / a unary minus over the constant
+        ctx, pos = draw(st.sampled_from(SHAPES))
+        val = draw(values(['int', 'float'] if ctx == 'neg' else None))
+        if in_domain(val, pos, ctx):
+            pos = CTX_POS[ctx][0]
+        return {'val': val, 'pos': pos, 'ctx': ctx}
     val = draw(values())
     pos = draw(st.sampled_from(POSITIONS))
     if pos == 'insert_raw' and in_domain(val, pos):
@@ -834,7 +937,23 @@ def run_shard(col, k, nshards, tier, seed):
             c = {'val': val, 'pos': pos}
             for rec in judge(c, col):
                 col.fail(rec, c)
+    shape_vals = [v for v in itertools.chain(seed_values(), shape_exhaustive_values(tier))]
+    for val in shape_vals:
+        for ctx, pos in SHAPES:
+            if ctx == 'neg' and val['t'] not in ('int', 'float'):
+                continue
+            i += 1
+            if i % nshards != k:
+                continue
+            c = {'val': val, 'pos': pos, 'ctx': ctx}
+            for rec in judge(c, col):
+                col.fail(rec, c)
     if k == 0:
+        col.exhaustive_parts.append(
+            f'statement shapes around the position: {len(shape_vals)} values (the fixed seeds + all strings of length <= '
+            f'{SHAPE_EXH_LEN[tier]} over the hostile alphabet) x {[c + "/" + p for c, p in SHAPES if c != "neg"]} (shapes '
+            f'that SqlalchemyRender declines for some or all names: the fallback text is judged by the target\'s rules) '
+            f'and the numeric seeds x unary minus over the constant at {list(CTX_POS["neg"])}')
         n = sum(len(ALPHABET) ** j for j in range(EXH_LEN[tier] + 1))
         col.exhaustive_parts.append(
             f'all {n} strings of length <= {EXH_LEN[tier]} over the hostile alphabet {ALPHABET!r} x {len(POSITIONS)} '
